@@ -329,8 +329,8 @@ def classify(c, r, open_known):
             # isolator (or the pipeline containing them), and the phase has a call inside a branch of a
             # conditional expression
             if c.get("kind") != "semantic" or c.get("pass") not in (
-                    "isolate_function_arguments", "isolate_function_calls", "fortran_order"):
-                continue
+                    "isolate_function_arguments", "isolate_function_calls"):
+                continue     # the pipeline order itself was repaired: a failure there is reported
             prob = c.get("problem", "")
             if "external calls before" not in prob:
                 continue
